@@ -10,6 +10,8 @@ package main
 //           put INTO the case (internal nondeterminism is an input of the model); the model replays it step by step.
 // family 2  [2; hnil; fn; c1..ck]   goz.Recover alone.
 // family 3  [3; n; s; m]   bulk stress without a trace: s submitters x m empty tasks; output = [bodies run; handler calls; 1].
+// family 5  [5; n; rounds; extra]   a limiter re-used after Wait(): per round n tasks that all end at the same instant, Wait(), then
+//           n+extra short tasks whose peak concurrency is measured, Wait(); output = [bodies run; peak <= limit; Wait returned].
 // family 4  [4; n; hk; vk; k]   hostile panic values under the library's own handlers, in a child process (c19_hostile.go).
 
 import (
@@ -524,6 +526,72 @@ func c19Bulk(n, s, m int64) []int64 {
 	return []int64{ran.Load(), handled.Load(), ok}
 }
 
+// a limiter re-used after Wait(): the tasks of the first half of a round all end at the same instant (a closed barrier), so
+// that Wait() returns while several of them are still between their WaitGroup.Done and the return of their slot; the second
+// half then saturates the limiter with short tasks and measures how many bodies are inside at once.
+func c19Reuse(n, rounds, extra int64) []int64 {
+	l := goz.NewLimiter(int(n))
+	eff := n
+	if eff < 1 {
+		eff = 3
+	}
+	var ran, inside, peak atomic.Int64
+	done := make(chan struct{})
+	var crashed atomic.Int64
+	go func() {
+		defer close(done)
+		defer func() {
+			if p := recover(); p != nil {
+				crashed.Add(1)
+			}
+		}()
+		for r := int64(0); r < rounds; r++ {
+			bar := make(chan struct{})
+			first := func() { <-bar; ran.Add(1) }
+			for k := int64(0); k < eff; k++ {
+				l.Go(first)
+			}
+			close(bar)
+			l.Wait()
+			second := func() {
+				cur := inside.Add(1)
+				for {
+					p := peak.Load()
+					if cur <= p || peak.CompareAndSwap(p, cur) {
+						break
+					}
+				}
+				for i := 0; i < 3; i++ {
+					runtime.Gosched()
+				}
+				inside.Add(-1)
+				ran.Add(1)
+			}
+			for k := int64(0); k < eff+extra; k++ {
+				l.Go(second)
+			}
+			l.Wait()
+		}
+	}()
+	ok := int64(1)
+	t := time.NewTimer(c19Bound())
+	defer t.Stop()
+	select {
+	case <-done:
+	case <-t.C:
+		c19Hangs.Add(1)
+		ok = 0
+	}
+	if crashed.Load() > 0 {
+		return []int64{ran.Load(), 0, ok, PANIC}
+	}
+	within := int64(1)
+	if peak.Load() > eff {
+		within = 0
+	}
+	return []int64{ran.Load(), within, ok}
+}
+
 func c19Recover(hnil bool, fn int64, cs []int64) []int64 {
 	var mu sync.Mutex
 	var out []int64
@@ -593,6 +661,11 @@ func c19Impl(in []int64) []int64 {
 			return []int64{BADCASE}
 		}
 		return c19Bulk(in[1], in[2], in[3])
+	case 5:
+		if len(in) != 4 || in[1] > 4096 || in[2] < 0 || in[2] > 1000000 || in[3] < 0 || in[3] > 64 {
+			return []int64{BADCASE}
+		}
+		return c19Reuse(in[1], in[2], in[3])
 	case 4:
 		if len(in) != 5 || in[2] < 0 || in[2]%4 > 2 || in[2] > 4*100000 || in[4] < 0 || in[4] > 64 || in[1] > 64 {
 			return []int64{BADCASE}
@@ -740,6 +813,17 @@ func c19Gen(c *Ctx) {
 		m := int64(20000 + r.Intn(30000))
 		t.Try("stress-bulk", []int64{3, n, s, m}, true)
 	})
+	// ---- the limiter re-used after Wait(): tasks ending at the same instant, then a saturating round
+	nr = c.N(48, 480)
+	c.Each(nr, func(i int, t *T) {
+		if tooMany() {
+			return
+		}
+		r := t.R
+		n := []int64{1, 2, 3, 8, 16, 64}[r.Intn(6)]
+		rounds := int64(30000) / (n + 4)
+		t.Try("reuse-after-wait", []int64{5, n, rounds, int64(1 + r.Intn(3))}, true)
+	})
 	c.Note(fmt.Sprintf("liveness timeouts hit: %d (must be 0 on a correct tree)", c19Hangs.Load()))
 }
 
@@ -773,6 +857,10 @@ func c19Describe(in []int64) string {
 		return fmt.Sprintf("Recover(fn panics=%d, handler nil=%d, cleanups panic=%v)", in[2], in[1], in[3:])
 	case 3:
 		return fmt.Sprintf("NewLimiter(%d), %d submitters x %d empty tasks, then Wait", in[1], in[2], in[3])
+	case 5:
+		if len(in) == 4 {
+			return fmt.Sprintf("NewLimiter(%d), %d rounds of: limit tasks released together by one barrier; Wait(); limit+%d short tasks, peak concurrency measured; Wait()", in[1], in[2], in[3])
+		}
 	case 4:
 		if len(in) == 5 {
 			return fmt.Sprintf("child process: NewLimiter(%d), handler %d (mod 4: 0 none, 1 goz.LogPanic with depth handler/4 (0 = 6, 5000 = depth 0), 2 plain func), %d tasks panic with value kind %d (0 int, 1 typed-nil error, 2 Stringer that panics, 3 Formatter that panics, 4 error whose Error panics, 5/6 structs holding such values); Wait; fill the limiter; Wait", in[1], in[2], in[4], in[3])
@@ -790,5 +878,5 @@ func c19Shrink(in []int64) [][]int64 {
 
 func init() {
 	Register(&Prop{ID: "C19", Num: 19, SpecMode: "rel", Gen: c19Gen, Impl: c19Impl, Shrink: c19Shrink, Describe: c19Describe,
-		Rule: "scripts: limits {-1,0,1,2,3,8}+random, up to 53 ops (Go with 7 task kinds incl. panics by int/string/error/runtime error and nested submission, Release k, Wait), directed families 'k panics then n+2 submissions' and 'fill, panic while full, Wait while running'; stress: 1-4 submitters x 5-34 free-running tasks with the observed trace replayed by the model; bulk: up to 16 submitters x 50k empty tasks; Recover: all outcome combinations of fn and <= 3 cleanups; hostile panic values (typed-nil error, Stringer/Formatter/Error that panic, structs holding them) under no handler / goz.LogPanic / a plain func, in child processes. distinct = distinct case; non-trivial = at least 3 submissions and 2 op kinds (scripts), at least 10 tasks (stress), at least one cleanup (Recover)"})
+		Rule: "scripts: limits {-1,0,1,2,3,8}+random, up to 53 ops (Go with 7 task kinds incl. panics by int/string/error/runtime error and nested submission, Release k, Wait), directed families 'k panics then n+2 submissions' and 'fill, panic while full, Wait while running'; stress: 1-4 submitters x 5-34 free-running tasks with the observed trace replayed by the model; bulk: up to 16 submitters x 50k empty tasks; re-use: limits 1..64, thousands of rounds of (limit tasks ending at one instant, Wait, limit+1..3 short tasks with the peak measured, Wait) on one limiter; Recover: all outcome combinations of fn and <= 3 cleanups; hostile panic values (typed-nil error, Stringer/Formatter/Error that panic, structs holding them) under no handler / goz.LogPanic / a plain func, in child processes. distinct = distinct case; non-trivial = at least 3 submissions and 2 op kinds (scripts), at least 10 tasks (stress), at least one cleanup (Recover)"})
 }
